@@ -161,6 +161,7 @@ func cmdCheck(repo, verif, prop, tier string, timeout int, verbose bool) int {
 	}
 	if prop == "C18" {
 		scans = append(scans, scanVariants(verif, pr))
+		scans = append(scans, scanRecursion(pr))
 	}
 	if prop == "C01" || prop == "C02" || prop == "C03" || prop == "C04" || prop == "C05" || prop == "C11" {
 		scans = append(scans, e.scanAstImmutable())
@@ -175,6 +176,16 @@ func cmdCheck(repo, verif, prop, tier string, timeout int, verbose bool) int {
 	for _, ob := range pr.obs {
 		seen[ob.Name] = true
 		solverTime += ob.TimeS
+		if ob.Kind == "rec-progress" {
+			// optional: a recursive call made before anything is consumed is allowed; what is checked is that such
+			// calls form no cycle (scan[C18:recursion])
+			if ob.ok() {
+				claimed++
+				discharged++
+				bySolver[ob.Solver]++
+			}
+			continue
+		}
 		if ob.Expect == "sat" {
 			// vacuity guard
 			if !ob.ok() {
